@@ -3199,6 +3199,13 @@ impl Server {
             }
         }
         
+        // Inside MULTI/EXEC there is no connection to block (the queued commands run with the
+        // connection id 0): like Redis, answer nil at once instead of registering a waiter for
+        // a connection that does not exist
+        if conn_id == 0 {
+            return Ok(RespFrame::null_array());
+        }
+        
         // No data available, register as blocked
         let deadline = timeout.map(|t| Instant::now() + t);
         self.blocking_manager.register_blocked(db_index, conn_id, keys.clone(), BlockingOp::BLPop, deadline)?;
@@ -3258,6 +3265,13 @@ impl Server {
                     RespFrame::from_bytes(value),
                 ])));
             }
+        }
+        
+        // Inside MULTI/EXEC there is no connection to block (the queued commands run with the
+        // connection id 0): like Redis, answer nil at once instead of registering a waiter for
+        // a connection that does not exist
+        if conn_id == 0 {
+            return Ok(RespFrame::null_array());
         }
         
         // No data available, register as blocked
